@@ -18,16 +18,17 @@ pub(crate) use self::range::Range;
 pub use self::spanned::SourceLocation;
 pub(crate) use self::spanned::{Spanned, SpannedRawBytes};
 
-/// Unlike eq_ignore_ascii_case it only lowercases the first arg
+/// Compares bytes ignoring ASCII case. The second argument is usually lowercased already, but
+/// that is only true of its *characters*: in encodings such as Shift_JIS, Big5 or GBK the trail
+/// byte of a multi-byte character can lie in the `A-Z` range (e.g. `ア` is `83 41`), so the bytes
+/// of a lowercased name can't be assumed to be lowercase.
 pub(crate) fn eq_case_insensitive(mixed_case: &[u8], lowercased: &[u8]) -> bool {
-    debug_assert!(lowercased.iter().all(|&b| b == b.to_ascii_lowercase()));
-
     if mixed_case.len() != lowercased.len() {
         return false;
     }
 
     for i in 0..mixed_case.len() {
-        if mixed_case[i].to_ascii_lowercase() != lowercased[i] {
+        if mixed_case[i].to_ascii_lowercase() != lowercased[i].to_ascii_lowercase() {
             return false;
         }
     }
